@@ -39,6 +39,13 @@ CLAIMED = {
             "Trusted: Lean kernel (core-only proofs: propext, Quot.sound, Classical.choice via omega/simp), harness+orchestrator. Network fetch "
             "result and wall clock are inputs; sub-second timestamp truncation and the download/extract/install path are not modelled.",
             "DESIGN.md §4 C20"),
+    "C15": ("Lean 4 theorem about a scanner-for-scanner model of lexer.cpp: for every byte string and every keyword table, accepted "
+            "source = trivia/token/.../trivia with each token stamped with the independently defined position of its first byte; keyword "
+            "table regenerated from the source on every run; exact differential correspondence of token lists and lexical errors",
+            "Proof for every input on the model (core-only); tied to lexer.cpp by running the real Lexer and the model on the same bytes "
+            "and comparing (type, text, line, column) of every token and (kind, line, column) of every lexical error.",
+            "Trusted: Lean kernel (propext, Quot.sound, Classical.choice from omega/simp), table translator, harness+orchestrator; C-locale "
+            "character classes assumed.", "DESIGN.md §4 C15"),
 }
 PENDING_REASON = "check not built yet in this revision of /verif (planned: Lean model + correspondence, see DESIGN.md §4)"
 
